@@ -195,3 +195,36 @@ v("c10-twin-union-order", "C10", VR,
   expect="silent")
 v("c10-twin-bitor", "C10", VR,
   "        cols = cols.intersection(using).union(self.order_columns)", "        cols = (cols & set(using)) | set(self.order_columns)", expect="silent")
+
+# ---------------------------------------------------------------- C26
+v("c26-selectrows-no-unknown-check", "C26", VR,
+  "        unknown_cols = self.decision_columns - set(source.column_names)\n        if len(unknown_cols) > 0:\n            raise KeyError(\"referred to unknown columns: \" + str(unknown_cols))\n", "")
+v("c26-extend-no-unknown-check", "C26", VR,
+  "        unknown_cols = consumed_cols - set(source.column_names)\n        if len(unknown_cols) > 0:\n            raise KeyError(\"referred to unknown columns: \" + str(unknown_cols))\n        known_cols = set(column_names)\n        for ci in parsed_ops.keys():\n            if ci not in known_cols:\n                column_names.append(ci)\n        if len(partition_by)",
+  "        known_cols = set(column_names)\n        for ci in parsed_ops.keys():\n            if ci not in known_cols:\n                column_names.append(ci)\n        if len(partition_by)")
+v("c26-drop-unknown-direction", "C26", VR,
+  "        unknown = set(column_deletions) - set(source.column_names)\n        if len(unknown) > 0:\n            raise KeyError(\"dropping unknown columns \"",
+  "        unknown = set(source.column_names) - set(column_deletions)\n        if len(unknown) > 0 and False:\n            raise KeyError(\"dropping unknown columns \"")
+v("c26-join-no-right-key-check", "C26", VR,
+  "        missing_right = set(on_b) - set(b.column_names)\n        if len(missing_right) > 0:\n            raise KeyError(\"right table missing join keys: \" + str(missing_right))\n", "")
+v("c26-join-check-flag-ignored", "C26", VR,
+  "        if check_all_common_keys_in_equi_spec:\n            missing_common", "        if False:\n            missing_common")
+v("c26-extend-bad-overwrite-unchecked", "C26", VR,
+  "        if len(bad_overwrite) > 0:\n            raise ValueError(\"tried to change: \" + str(bad_overwrite))\n", "")
+v("c26-project-group-overwrite-unchecked", "C26", VR,
+  "        if len(new_cols_produced_in_calc.intersection(group_by)):\n            raise ValueError(\"project can not alter grouping columns\")\n", "")
+v("c26-use-and-produce-unchecked", "C26", "expr_parse.py",
+  "    if len(intersect) > 0:\n        raise ValueError(\n            \"columns both produced and used in same expression set: \" + str(intersect)\n        )\n", "")
+v("c26-project-nonagg-unchecked", "C26", VR,
+  "            else:\n                raise ValueError(\n                    \"non-aggregated expression in project: \" + str(k) + \": \" + str(opk)\n                )\n", "")
+v("c26-concat-different-columns-unchecked", "C26", VR,
+  "        if not set(sources[0].column_names) == set(sources[1].column_names):\n            raise ValueError(\"a and b should have same set of column names\")\n", "")
+v("c26-lookup-symbol-returns-none", "C26", "parse_by_lark.py",
+  "        except KeyError:\n            raise NameError(f\"unknown symbol: {key}\")", "        except KeyError:\n            return data_algebra.expr_rep.ColumnReference(key)")
+v("c26-ordered-fn-without-order-unchecked", "C26", VR,
+  "                if (not ordered_windowed_situation) and (\n                    opk.op\n                    in data_algebra.expr_rep.fn_names_that_imply_ordered_windowed_situation\n                ):\n                    raise ValueError(\n                        str(opk) + \"' is not allowed in not-ordered windowed situation\"\n                    )\n", "")
+v("c26-twin-rename-unknown", "C26", VR,
+  "        unknown = set(column_deletions) - set(source.column_names)\n        if len(unknown) > 0:\n            raise KeyError(\"dropping unknown columns \" + str(unknown))",
+  "        not_there = set(column_deletions).difference(source.column_names)\n        if not_there:\n            raise KeyError(\"dropping unknown columns \" + str(not_there))", expect="silent")
+v("c06-order_by-as-set", "C06", VR,
+  "                and (order_by == self.order_by)\n", "                and (set(order_by) == set(self.order_by))\n")
